@@ -2,7 +2,7 @@
     A crash is a process kill: the kernel's file state survives, an in-flight write leaves a prefix.
     Power loss / write-back reordering is outside the statement (the code never calls fsync). *)
 From TB Require Import Base Decimal BencodeModel TorrentModel TorrentProofs PathModel FsModel SolverModel FinderModel RunModel
-                       SolverProofs RunProofs FsProofs FaultProofs PreludeProofs TableProofs Generated GeneratedObligations.
+                       SolverProofs RunProofs FsProofs FaultProofs PreludeProofs TableProofs Generated GeneratedObligations SystemModel SystemProofs GlueProofs RunExample.
 Local Open Scope N_scope.
 
 (** Every cut-off event sequence of a good program - cut between or in the middle of any
@@ -30,7 +30,23 @@ Theorem C11_verified_ranges_survive truth decl f0 ops f1 j lo hi : run_ops (adm 
   holds (truth j) (fs_content f0 j) lo hi -> holds (truth j) (fs_content f1 j) lo hi.
 Proof. exact (fs_ops_preserve_verified truth decl f0 ops f1 j lo hi). Qed.
 
+(** WHOLE RUN: the invariant [SI] (paths only added; unowned inodes untouched; every export image
+    byte-sound; verified ranges kept; no aliasing introduced) holds in EVERY reachable state of
+    the transition system - whose steps include stopping anywhere and [ss_cut], a write of which
+    only a prefix reached the file - and the programs that were in flight are all still good. *)
+Theorem C11_every_interrupted_state_sound H content export ts ix es ws f0 pool0 s :
+  run_setup H content export ts ix es ws f0 pool0 -> sreach {| s_fs := f0; s_pool := pool0 |} s ->
+  SI content es f0 (s_fs s) /\ Forall (pgood content es) (s_pool s).
+Proof. exact (whole_run_safe H content export ts ix es ws f0 pool0 s). Qed.
+
+(** The stepper the trace validator uses performs only steps of that system (so every observed
+    run, complete or killed, that it accepts is a path of the system). *)
+Theorem C11_validator_steps_are_system_steps sched s s' : sys_run s sched = Some s' -> sreach s s'.
+Proof. exact (sys_run_reach sched s s'). Qed.
+
 Print Assumptions C11_cut_traces_are_good.
 Print Assumptions C11_cut_write_is_content.
 Print Assumptions C11_interrupted_bytes_sound.
 Print Assumptions C11_verified_ranges_survive.
+Print Assumptions C11_every_interrupted_state_sound.
+Print Assumptions C11_validator_steps_are_system_steps.
